@@ -28,7 +28,7 @@ fn distance_gt(k: u64) -> Vec<QueryCondition> {
 pub fn check_case<S: StorageData>(db: &DbImpl<S>, g: &RefGraph, kind: Kind, origin: i64) -> (Option<Failure>, u64) {
     let mut searches = 1;
     let q = kind.query(origin);
-    let reference = ref_traverse(g, origin, kind, &[], DistancePolicy::Never).expect("no conditions: always defined");
+    let reference = ref_traverse(g, origin, kind, &[], PLAIN_READING).expect("no conditions: always defined");
     let ref_ids: Vec<i64> = reference.iter().map(|v| v.id).collect();
     let dist = |id: i64| reference.iter().find(|v| v.id == id).map(|v| v.distance);
     let fail = |clause: &str, what: String, q: &SearchQuery, expected: Value, observed: Value| Some(Failure { clause: clause.to_string(), what, query: q.clone(), expected, observed });
@@ -55,7 +55,7 @@ pub fn check_case<S: StorageData>(db: &DbImpl<S>, g: &RefGraph, kind: Kind, orig
         let mut class = "other";
         if let Some(e) = g.edge(origin) {
             let hub = if kind.is_reverse() { e.to } else { e.from };
-            let from_hub: BTreeSet<i64> = ref_traverse(g, hub, kind, &[], DistancePolicy::Never).unwrap().iter().map(|v| v.id).collect();
+            let from_hub: BTreeSet<i64> = ref_traverse(g, hub, kind, &[], PLAIN_READING).unwrap().iter().map(|v| v.id).collect();
             if extra.iter().all(|x| from_hub.contains(x)) && extra.iter().any(|x| *x < 0 && g.edge(*x).map(|s| if kind.is_reverse() { s.to } else { s.from }) == Some(hub)) {
                 class = "siblings-of-origin-edge";
             }
@@ -168,14 +168,9 @@ fn explore_history<S: StorageData>(report: &Report, c: &Counters, db: &mut DbImp
         }
     }
     if let Some(rs) = results {
-        // distinct (structure, origin position, kind) is bounded by graphs x 7 x 4; count distinct reachable-set shapes instead
-        for (i, origin) in g.elements().into_iter().enumerate() {
-            let r = ref_traverse(&g, origin, Kind::Dfs, &[], DistancePolicy::Never).unwrap();
-            if r.len() >= 3 {
-                let mut key = g.canonical();
-                key.push(i as u8);
-                rs.insert(&key);
-            }
+        // non-trivial graph: from some origin at least 3 elements are reachable
+        if g.elements().into_iter().any(|o| ref_traverse(&g, o, Kind::Dfs, &[], PLAIN_READING).unwrap().len() >= 3) {
+            rs.insert(&g.canonical());
         }
     }
     c.searches.fetch_add(n_search, Ordering::Relaxed);
@@ -222,10 +217,10 @@ pub fn run(args: &Args) -> i32 {
     let max_nodes = env("VERIF_C14_NODES", args.tier.pick(3, 4)) as u8;
     let depth_for = |n: u8| -> usize {
         let d = match n {
-            1 => args.tier.pick(4, 6),
-            2 => args.tier.pick(4, 6),
-            3 => args.tier.pick(4, 5),
-            _ => args.tier.pick(3, 4),
+            1 => args.tier.pick(4, 7),
+            2 => args.tier.pick(4, 7),
+            3 => args.tier.pick(4, 6),
+            _ => args.tier.pick(3, 5),
         };
         env(&format!("VERIF_C14_DEPTH{n}"), d)
     };
@@ -244,7 +239,7 @@ pub fn run(args: &Args) -> i32 {
             let (prefix, subtree) = &items[i];
             let mut f = |h: &[Op]| {
                 let spec = GraphSpec::plain(n, h);
-                let mut db = agdb::DbMemory::new("c14").unwrap();
+                let mut db = agdb::DbMemory::new(MEMORY_DB_NAME).unwrap();
                 explore_history(&report, &counters, &mut db, &spec, "memory", Some(&graphs), Some(&nontrivial));
             };
             if *subtree { for_each_history(&alpha, prefix, depth, &mut f) } else { f(prefix) }
@@ -294,7 +289,7 @@ pub fn run(args: &Args) -> i32 {
     report.set("distinct_nontrivial", json!(nontrivial.len()));
     report.set(
         "rule",
-        json!("every valid history (ordered sequence of edge insertions E a-b, removals of the j-th oldest live edge XE j, node renewals XN a) up to the stated length on each number of node slots; for each resulting graph every live node and edge as origin x {bfs,dfs} x {from,to}; one evaluation = one search executed on the real Db (plain search plus one `distance > k` search per level). distinct_nontrivial = distinct (graph structure incl. adjacency order, origin) pairs whose reachable set has >= 3 elements"),
+        json!("every valid history (ordered sequence of edge insertions E a-b, removals of the j-th oldest live edge XE j, node renewals XN a) up to the stated length on each number of node slots; for each resulting graph every live node and edge as origin x {bfs,dfs} x {from,to}; one evaluation = one search executed on the real Db (plain search plus one `distance > k` search per level). distinct_nontrivial = distinct graph structures (node slots + live edges in connection order) in which at least 3 elements are reachable from some origin"),
     );
     report.set("exhaustive", json!(true));
     report.set("bounds", json!(bounds));
